@@ -107,6 +107,7 @@ func checkC03(c *Ctx) {
 	c.Rule("C03.R2.binder", "required / empty / conversion / body / validation arms of the binder sit under the prescribed flags, with the prescribed arguments", 40)
 	checkEmitRules(c, "C03.R2.binder", ev, paramBinderRules)
 	checkBinderLocations(c, "C03.R2.locations", ev)
+	checkBodyAssigned(c, ev)
 	checkBinderLoops(c, ev)
 	checkDefaultInitAgreement(c, ev)
 
@@ -554,4 +555,66 @@ func checkDefaultInitAgreement(c *Ctx, ev *tmpl.Evaluator) {
 	}
 	c.Check(bad == "", rule, "serverParameter › New…Params › every placeholder default is initialised", l.Tree.File, fmt.Sprintf("2^%d valuations, %d declarations, %d initialisers", len(keys), len(decl), len(inits)),
 		"with {"+bad+"} true the default variable is declared with its zero placeholder but no UnmarshalText / json.Unmarshal initialiser is emitted: an absent optional parameter is handed to the handler with the zero value instead of the spec's default")
+}
+
+// checkBodyAssigned: whatever validation strategy applies, the decoded body reaches the
+// parameter struct: under every valuation of the guards of bodyvalidator that does not make the
+// body a stream (bound directly from r.Body by the caller), an assignment `<param> = body` is
+// emitted.
+func checkBodyAssigned(c *Ctx, ev *tmpl.Evaluator) {
+	rule := "C03.R2.body-assigned"
+	c.Rule(rule, "every reachable arm of the body validator assigns the decoded body to the parameter", 1)
+	l := linearOf(c, ev, "bodyvalidator")
+	if l == nil {
+		c.Anchor(rule, "template bodyvalidator", "not found")
+		return
+	}
+	var conds []*tmpl.Cond
+	atoms := map[string]bool{}
+	for _, oc := range l.Find(regexp.MustCompile(`⟦\.ReceiverName⟧\.⟦pascalize \.Name⟧ = (⟦[^⟧]*⟧)?&?\w+\n`)) {
+		cd := tmpl.StackCond(oc.Guards)
+		cd.Atoms(atoms)
+		conds = append(conds, cd)
+	}
+	if len(conds) < 5 {
+		c.Unk(rule, "bodyvalidator › assignments of the decoded body", l.Tree.File, fmt.Sprintf("%d found, expected at least 5", len(conds)))
+		return
+	}
+	// top-level strategy atoms: one of them holds for every non-stream body
+	strategy := []string{".HasModelBodyParams", ".HasSimpleBodyParams", ".IsInterface", ".IsBase64"}
+	keys := sortedKeys(atoms)
+	if len(keys) > 18 {
+		c.Unk(rule, "bodyvalidator › assignments of the decoded body", l.Tree.File, fmt.Sprintf("%d atoms: too many for small-model evaluation", len(keys)))
+		return
+	}
+	bad := ""
+	for mask := 0; mask < 1<<len(keys) && bad == ""; mask++ {
+		env := map[string]bool{}
+		for i, k := range keys {
+			env[k] = mask&(1<<i) != 0
+		}
+		any := false
+		for _, a := range strategy {
+			any = any || env[a]
+		}
+		// model and simple strategies are exclusive (C03.R3.flags); skip impossible valuations
+		if !any || env[".HasModelBodyParams"] && env[".HasSimpleBodyParams"] {
+			continue
+		}
+		assigned := false
+		for _, cd := range conds {
+			assigned = assigned || cd.Eval(env)
+		}
+		if !assigned {
+			var on []string
+			for _, k := range keys {
+				if env[k] {
+					on = append(on, k)
+				}
+			}
+			bad = strings.Join(on, ", ")
+		}
+	}
+	c.Check(bad == "", rule, "bodyvalidator › the decoded body is assigned under every strategy", l.Tree.File, fmt.Sprintf("2^%d valuations, %d assignments", len(keys), len(conds)),
+		"with {"+bad+"} true no `param = body` assignment is emitted: the request body is decoded and then dropped, the handler receives an empty parameter")
 }
